@@ -22,7 +22,7 @@ MIN = {"quick": {"links==model": 3000, "rebuilt:has_interaction(u,v,t)": 50000, 
        "thorough": {"links==model": 60000, "rebuilt:has_interaction(u,v,t)": 1000000, "directed-arg": 60000}}
 REQUIRED_CELLS = {t: ("class:DynGraph", "class:DynDiGraph", "ids:int", "ids:str", "idkey:custom", "idkey:default",
                       "src:isolated", "src:reciprocal", "src:self-loop", "attr-named-id", "ids:textual-twins",
-                      "attr-named-like-link-fields") for t in ("quick", "thorough")}
+                      "attr-named-like-link-fields", "graph-attr-named-like-ctor-params") for t in ("quick", "thorough")}
 
 
 def one(ctx, dn):
@@ -39,6 +39,10 @@ def one(ctx, dn):
         for op in prog:
             for (u, v, t, e) in gen.elements(op):
                 for x in (u, v):
+                    if x not in seen:
+                        seen.append(x)
+            if op[0] in ("path", "star", "cycle", "dn.path", "dn.star", "dn.cycle"):
+                for x in op[1]:
                     if x not in seen:
                         seen.append(x)
         twin = {x: (str(seen[i - 1]) if i % 2 else x) for i, x in enumerate(seen)}
@@ -82,6 +86,12 @@ def one(ctx, dn):
     G.graph["title"] = "g"
     G.graph["meta"] = {"k": [1, {"z": 2}]}
     m.graph = {"title": "g", "meta": {"k": [1, {"z": 2}]}}
+    if rng.random() < 0.3:
+        # graph attributes whose names coincide with constructor parameters
+        extra = {"edge_removal": False, "data": "payload", "incoming_graph_data": None, "name": "nm"}
+        G.graph.update(extra)
+        m.graph.update(extra)
+        ctx.cell("graph-attr-named-like-ctor-params")
     S = m.static(None)
     if any(S.has_edge(n, n) for n in S):
         ctx.cell("src:self-loop")
